@@ -28,15 +28,30 @@ Proof.
   unfold consume_len. rewrite E. cbn [length]. lia.
 Qed.
 
-(* calls only of defined subroutines; unnamed loops, no predicates (as in [simple]) *)
+(* a predicate's process code returns (true or false) whatever the state it is asked about; PNil always does *)
+Definition pred_returns (pred : pstmts) : Prop := forall q, pred_holds text start pred q <> None.
+
+Lemma pred_returns_nil : pred_returns PNil.
+Proof. intros q. cbn. discriminate. Qed.
+
+Lemma filter_pred_total pred : pred_returns pred -> forall l, exists l', filter_pred text start pred l l'.
+Proof.
+  intros Hp. induction l as [|q l (l' & IH)]; [exists []; constructor|].
+  destruct (pred_holds text start pred q) as [[|]|] eqn:E.
+  - exists (q :: l'). apply fp_keep; assumption.
+  - exists l'. apply fp_drop; assumption.
+  - exfalso. exact (Hp q E).
+Qed.
+
+(* calls only of defined subroutines; unnamed loops; predicates that return *)
 Fixpoint callok (r : rx) : Prop :=
   match r with
-  | XCall _ t => exists b, defs t = Some (b, PNil)
+  | XCall _ t => exists b p, defs t = Some (b, p)
   | XSeq a b | XAlt a b => callok a /\ callok b
   | XNotIn _ mx => (0 <= mx)%Z
   | XLoop _ _ _ _ nm b => nm = [] /\ callok b
   | XDec _ b => callok b
-  | XSub _ b pred => pred = PNil /\ callok b
+  | XSub _ b pred => pred_returns pred /\ callok b
   | _ => True
   end.
 
@@ -49,12 +64,12 @@ Fixpoint guarded (r : rx) : Prop :=
   | XNotIn _ mx => (0 <= mx)%Z
   | XLoop _ _ _ _ nm b => nm = [] /\ guarded b
   | XDec _ b => guarded b
-  | XSub _ b pred => pred = PNil /\ guarded b
+  | XSub _ b pred => pred_returns pred /\ guarded b
   | _ => True
   end.
 
 (* every subroutine body is guarded *)
-Hypothesis Hdefs : forall t b p, defs t = Some (b, p) -> p = PNil /\ guarded b /\ callok b.
+Hypothesis Hdefs : forall t b p, defs t = Some (b, p) -> pred_returns p /\ guarded b /\ callok b.
 
 Definition total_upto (k : nat) (r : rx) : Prop := forall s, fst s <= T -> T - fst s <= k -> exists l, outs r s l.
 
@@ -124,8 +139,8 @@ Proof.
     destruct (iter_upto k id mn mx fw b (IHb Hb) (S (T - fst s)) 0 s ltac:(lia) Hs Hk) as (l & Hl).
     exists l. constructor. exact Hl.
   - destruct (IHb Hg s Hs Hk) as (la & Hla). eexists. constructor. eauto.
-  - destruct Hg as [Hp Hb]. subst pred. destruct (IHb Hb s Hs Hk) as (l & Hl).
-    exists l. econstructor; eauto. apply filter_pred_nil.
+  - destruct Hg as [Hp Hb]. destruct (IHb Hb s Hs Hk) as (l & Hl). destruct (filter_pred_total pred Hp l) as (l' & Hl').
+    exists l'. econstructor; eauto.
 Qed.
 
 Lemma callok_upto k : (forall r, guarded r -> total_upto k r) -> forall r, callok r -> total_upto k r.
@@ -135,8 +150,8 @@ Proof.
   - eexists; constructor.
   - eexists; constructor.
   - eexists; constructor.
-  - destruct Hc as (b & Hd). destruct (Hdefs t b PNil Hd) as (_ & Hg & _).
-    destruct (HB b Hg s Hs Hk) as (l & Hl). exists l. eapply o_call; eauto. apply filter_pred_nil.
+  - destruct Hc as (b & p & Hd). destruct (Hdefs t b p Hd) as (Hp & Hg & _).
+    destruct (HB b Hg s Hs Hk) as (l & Hl). destruct (filter_pred_total p Hp l) as (l' & Hl'). exists l'. eapply o_call; eauto.
   - destruct Hc as [Ha Hb]. destruct (IHa Ha s Hs Hk) as (la & Hla).
     destruct (outs_list_upto k b (IHb Hb) la (range_upto k _ _ _ Hla Hs Hk)) as (lb & Hlb). exists lb. econstructor; eauto.
   - destruct Hc as [Ha Hb]. destruct (IHa Ha s Hs Hk) as (la & Hla). destruct (IHb Hb s Hs Hk) as (lb & Hlb).
@@ -147,8 +162,8 @@ Proof.
     destruct (iter_upto k id mn mx fw b (IHb Hb) (S (T - fst s)) 0 s ltac:(lia) Hs Hk) as (l & Hl).
     exists l. constructor. exact Hl.
   - destruct (IHb Hc s Hs Hk) as (la & Hla). eexists. constructor. eauto.
-  - destruct Hc as [Hp Hb]. subst pred. destruct (IHb Hb s Hs Hk) as (l & Hl).
-    exists l. econstructor; eauto. apply filter_pred_nil.
+  - destruct Hc as [Hp Hb]. destruct (IHb Hb s Hs Hk) as (l & Hl). destruct (filter_pred_total pred Hp l) as (l' & Hl').
+    exists l'. econstructor; eauto.
 Qed.
 
 Lemma total_all : forall k r, callok r -> total_upto k r.
